@@ -639,6 +639,18 @@ func (j *judgeCtx) checkBarriers() {
 			if c.Err != "" {
 				continue
 			}
+			// a Resume/Restart/Bind from another goroutine that overlaps the barrier call
+			// switches dispatching back on underneath it: the property quantifies over
+			// concurrent barrier callers, not over concurrent resumers
+			resumed := false
+			for _, o := range j.lcalls {
+				if (o.K == opResume || o.K == opRestart || o.K == opBind) && o != c && o.Inv < c.Ret && (o.Ret == 0 || o.Ret > c.Inv) {
+					resumed = true
+				}
+			}
+			if resumed {
+				continue
+			}
 			if n := j.inflightAt(c.Ret); n > 0 {
 				j.add("C06.b", c.Ret, "%s returned nil at %d while %d worker-function invocations were executing", opNames[c.K], c.Ret, n)
 			}
@@ -1213,6 +1225,12 @@ func (j *judgeCtx) atRestWorker(c *Call, exits int) {
 		}
 		if unknown == 0 && c.Val != want && wd.crashes == 0 {
 			j.add("C17.c", c.Ret, "Submitted = %d at rest, but %d submissions were accepted (distributed kinds: notifications delivered to this worker)", c.Val, want)
+			for _, o := range j.r.calls {
+				if o.K == opCloseQueue && o.Ret != 0 && o.Ret < c.Inv {
+					j.add("C10.f", c.Ret, "a queue was closed at %d; Submitted = %d at rest, but %d submissions were accepted: a submission refused by a closed queue must have no side effect", o.Ret, c.Val, want)
+					break
+				}
+			}
 		}
 	case 6:
 		if c.Val != exits {
@@ -1344,6 +1362,39 @@ func (j *judgeCtx) checkOutcomes() {
 			if o.N < s.N && len(o.Entries) > 0 && o.IDSeen == s.IDSeen && o.ID == "" && o.Batch < 0 {
 				j.add("C07.b", s.Entries[0], "jobs %d and %d both carried the generated id %q", o.N, s.N, s.IDSeen)
 			}
+		}
+	}
+	// C07.f: a panic is offered on the error channel. The offer is a non-blocking send into a
+	// one-slot buffer, so it may be dropped when another error sits there; with a reader
+	// attached from the start, a single panic in the whole episode and no other possible
+	// source of errors (plain worker, built-in queues, no cancellation, purge, queue close,
+	// stop or restart) the slot is empty and the offer must arrive.
+	if wd.cfg.ErrReader && wd.cfg.WKind == wkPlain && j.ep.Res.Verdict == simrt.VDone && wd.cancelled == 0 {
+		quiet := true
+		for _, c := range j.r.calls {
+			switch c.K {
+			case opCloseJob, opPurge, opCloseQueue, opStop, opWaitAndStop, opRestart, opCancelCtx, opBind:
+				if c.Phase == 0 {
+					quiet = false
+				}
+			}
+		}
+		for _, q := range wd.qs {
+			if q.ad != nil {
+				quiet = false
+			}
+		}
+		var panicked []*Sub
+		for _, s := range wd.subs {
+			if len(s.Exits) > 0 && s.Outcome >= 2 {
+				panicked = append(panicked, s)
+			}
+			if s.CloseInFn {
+				quiet = false
+			}
+		}
+		if quiet && len(panicked) == 1 && len(wd.errsSeen) == 0 {
+			j.add("C07.f", j.final, "job %d panicked (the only failure of the episode), an application goroutine was reading Errs() all the time, but the panic was never offered on the error channel", panicked[0].N)
 		}
 	}
 	// errors offered on Errs() correspond to failed jobs
